@@ -312,6 +312,18 @@ def c15_worker(res: Result, i: int, n: int) -> None:
                 else:
                     res.count("buffered_reader_decoded")
                     check_instance(res, cls, dec3, lambda b=raw: entity_reader(cls)(io.BytesIO(b)), lambda: [], snap, ops, "decoded from an io.BufferedReader")
+            if k % 3 == 2 or k < nhuge:
+                # ... and a raw (io.RawIOBase) stream handed to the reader directly
+                try:
+                    from .faults import _EndedRaw
+
+                    raw = refcodec.encode_bytes(spec, tree)
+                    dec4 = entity_reader(cls)(_EndedRaw(raw))
+                except Exception:  # noqa: BLE001
+                    res.count("raw_stream_decode_failed_skipped")
+                else:
+                    res.count("raw_stream_decoded")
+                    check_instance(res, cls, dec4, lambda b=raw: entity_reader(cls)(io.BytesIO(b)), lambda: [], snap, ops, "decoded from an io.RawIOBase stream")
             if k % 3 == 0 or k < nhuge:
                 # a raw, unbuffered stream hands out fewer bytes than asked for; kio may refuse that (BufferUnderflow), but if it
                 # does produce an entity, that entity must be a proper value object as well
@@ -404,6 +416,9 @@ def _decoded_record_objects(res: Result, ops: dict) -> None:
         b, _ = gen_batch(rng, False, 4)
         if k % 3 == 0:
             b["records"][0]["headers"] = [(b"hk", b"hv"), (b"k2", None)]
+        if k in (1, 7):
+            # keys / values / header values beyond typical chunking thresholds
+            b["records"][0].update(key=bytes(65537), value=bytes((1 << 20) + 1), headers=[(b"big", bytes(70000))])
         raw = recref.encode_batch(b)
         try:
             batch = read_batch(io.BytesIO(raw))
